@@ -2,7 +2,10 @@
    and followed by Print Assumptions (audited by ./check on every run). *)
 From Coq Require Import String Ascii.
 From V.lib Require Import Base.
-From V.c19 Require Import C19Model C19Spec C19InvProofs.
+From V.c19 Require Import C19Model C19Spec C19InvProofs C19TrackProofs C19DescProofs.
+
+Definition avc_parser := str -> option (N * N * (N * N * N)).
+Definition hevc_parser := str -> option (N * N * list N).
 
 (* For EVERY op sequence (any arguments, including calls that return an error or panic; the history stops
    at the first panic), every SPS parser: in the final state the moov children are mvhd, mvex and then the
@@ -10,9 +13,199 @@ From V.c19 Require Import C19Model C19Spec C19InvProofs.
    with the same id in the same order; the next-track id is larger than every track id.
    The bound is the uint32 track id: fewer than 2^32-1 calls. *)
 Theorem C19_inv :
-  forall (avc_parse : str -> option (N * N * (N * N * N))) (hevc_parse : str -> option (N * N * list N))
-         (ops : list op),
+  forall (avc_parse : avc_parser) (hevc_parse : hevc_parser) (ops : list op),
     N.of_nat (length ops) < 4294967295 ->
     let s := snd (run avc_parse hevc_parse ops) in inv_struct s /\ next_above s.
 Proof. exact inv_all. Qed.
 Print Assumptions C19_inv.
+
+(* In-scope histories (media types of the specification table, descriptor calls on existing tracks with a
+   non-empty SPS list / fscod < 3 / acmod < 8 / at least one EC-3 substream): no call panics, every call is
+   executed, the next-track id is n+1 (2 while there is no track), and track i has id i+1, the supplied timescale,
+   volume 1.0 only for audio, the handler type and media header box of the table, and the language rule
+   (3 bytes: packed into mdhd, no elng; otherwise mdhd "und" and elng carrying the tag verbatim) --
+   whatever descriptor calls came in between. *)
+Theorem C19_tracks :
+  forall (avc_parse : avc_parser) (hevc_parse : hevc_parser) (ops : list op),
+    N.of_nat (length ops) < 4294967295 ->
+    ops_valid 0 ops = true ->
+    let '(ocs, s) := run avc_parse hevc_parse ops in
+    ~ In OPanic ocs
+    /\ length ocs = length ops
+    /\ map Some (map core (traks s)) = spec_cores 0 (adds_of ops)
+    /\ next_spec s.
+Proof. exact valid_histories. Qed.
+Print Assumptions C19_tracks.
+
+(* three lower-case letters packed into mdhd read back (GetLanguage) as the same letters *)
+Theorem C19_language_readback :
+  forall a b c, lower a = true -> lower b = true -> lower c = true ->
+    spec_mdhd_lang [a; b; c] = pack3 a b c /\ get_language (pack3 a b c) = [a; b; c].
+Proof. intros a b c Ha Hb Hc. split; [reflexivity|exact (get_language_pack3 a b c Ha Hb Hc)]. Qed.
+Print Assumptions C19_language_readback.
+
+(* SetHEVCDescriptor uses the result of CreateHvcC before looking at err; that nil dereference is not
+   reachable: with a non-empty SPS list the call never panics (the SPS was parsed a few lines earlier) *)
+Theorem C19_hevc_nil_unreachable :
+  forall (hevc_parse : hevc_parser) t name vpss sps0 spss ppss seis incl,
+    fst (set_hevc hevc_parse t name vpss (sps0 :: spss) ppss seis incl) <> OPanic.
+Proof. exact (set_hevc_never_panics_on_nil_hvcc (fun _ => None)). Qed.
+Print Assumptions C19_hevc_nil_unreachable.
+
+(* every sample entry of every track, after any history, has data reference index 1 (the one url entry of dref) *)
+Theorem C19_dref :
+  forall (avc_parse : avc_parser) (hevc_parse : hevc_parser) (ops : list op),
+    entries_dref_ok (snd (run avc_parse hevc_parse ops)).
+Proof. exact dref_all. Qed.
+Print Assumptions C19_dref.
+
+(* a call adds exactly one sample entry when it succeeds and none otherwise *)
+Theorem C19_descriptor_one_entry :
+  forall (avc_parse : avc_parser) (hevc_parse : hevc_parser) t d,
+    let '(oc, t') := set_desc avc_parse hevc_parse t d in
+    match oc with
+    | OOk => exists e, sd_entries t' = sd_entries t ++ [e] /\ se_dref e = 1
+    | _ => sd_entries t' = sd_entries t
+    end.
+Proof. exact set_desc_entries. Qed.
+Print Assumptions C19_descriptor_one_entry.
+
+(* SetAVCDescriptor: entry name as requested, width/height = the parser's (16 bit), tkhd = 16.16 fixed point,
+   avcC carries the SPS's profile/compatibility/level and exactly the supplied parameter sets (none if not included) *)
+Theorem C19_descriptor_avc :
+  forall (avc_parse : avc_parser) t name spss ppss incl t',
+    set_avc avc_parse t name spss ppss incl = (OOk, t') ->
+    exists sps0 rest w h p c l,
+      spss = sps0 :: rest /\ avc_parse sps0 = Some (w, h, (p, c, l))
+      /\ (name = BS "avc1" \/ name = BS "avc3")
+      /\ sd_entries t' = sd_entries t ++
+           [mkSE name 1 (w mod 65536) (h mod 65536) 0
+                 (CfgAvcC (mkAvcC p c l (if incl then spss else []) (if incl then ppss else [])))]
+      /\ tk_width t' = (w * 65536) mod 4294967296 /\ tk_height t' = (h * 65536) mod 4294967296
+      /\ core t' = core t.
+Proof. exact set_avc_ok. Qed.
+Print Assumptions C19_descriptor_avc.
+
+(* SetHEVCDescriptor: hvcC carries the parser's configuration values and the VPS/SPS/PPS(/SEI) arrays with
+   NAL unit types 32/33/34(/39), the complete bit for hvc1, exactly the supplied NAL units *)
+Theorem C19_descriptor_hevc :
+  forall (hevc_parse : hevc_parser) t name vpss spss ppss seis incl t',
+    set_hevc hevc_parse t name vpss spss ppss seis incl = (OOk, t') ->
+    exists sps0 rest w h cfg,
+      spss = sps0 :: rest /\ hevc_parse sps0 = Some (w, h, cfg)
+      /\ (name = BS "hvc1" \/ name = BS "hev1")
+      /\ sd_entries t' = sd_entries t ++
+           [mkSE name 1 (w mod 65536) (h mod 65536) 0
+                 (CfgHvcC (mkHvcC cfg (spec_hevc_arrays name vpss spss ppss seis incl)))]
+      /\ tk_width t' = (w * 65536) mod 4294967296 /\ tk_height t' = (h * 65536) mod 4294967296
+      /\ core t' = core t.
+Proof. exact set_hevc_ok. Qed.
+Print Assumptions C19_descriptor_hevc.
+
+(* SetAACDescriptor: the AudioSpecificConfig in esds reads back (independent bit reader) as the supplied object
+   type and frequency, 2 channels (1 for HE-AAC v2), extension frequency 2f and base type AAC-LC for HE-AAC:
+   complete finite domain {AAC-LC, HE-AAC v1, v2} x {13 table frequencies, 44000, 8001, 65535, 1, 2^24-1} *)
+Theorem C19_descriptor_aac_config :
+  forall o f, In (o, f) aac_domain ->
+    let chan := if o =? 29 then 1 else 2 in
+    let ext := if (o =? 5) || (o =? 29) then 2 * f else 0 in
+    exists asc, asc_encode o f chan ext = Some asc /\ asc_read asc = (o, f, chan, ext mod 16777216, 2).
+Proof. exact aac_roundtrip. Qed.
+Print Assumptions C19_descriptor_aac_config.
+
+Theorem C19_descriptor_aac :
+  forall t o f t',
+    set_aac t o f = (OOk, t') ->
+    let chan := if o =? 29 then 1 else 2 in
+    let ext := if (o =? 5) || (o =? 29) then 2 * f else 0 in
+    exists asc, asc_encode o f chan ext = Some asc
+      /\ sd_entries t' = sd_entries t ++ [mkSE (BS "mp4a") 1 chan 16 (f mod 65536) (CfgEsds asc)]
+      /\ core t' = core t.
+Proof. exact set_aac_ok. Qed.
+Print Assumptions C19_descriptor_aac.
+
+(* the mp4a sample rate is the supplied frequency below 2^16 ... *)
+Theorem C19_aac_samplerate :
+  forall t o f t', f < 65536 -> set_aac t o f = (OOk, t') ->
+    exists e, sd_entries t' = sd_entries t ++ [e] /\ se_c e = f /\ se_name e = BS "mp4a".
+Proof. exact aac_samplerate_ok. Qed.
+Print Assumptions C19_aac_samplerate.
+
+(* ... and NOT for the valid AAC frequency 96000 (uint16 truncation; known finding C19-F4) *)
+Theorem C19_aac_samplerate_refuted :
+  exists t o f t', In (o, f) aac_domain /\ set_aac t o f = (OOk, t') /\
+                   exists e, last (sd_entries t') e = e /\ In e (sd_entries t') /\ se_c e <> f.
+Proof. exact aac_samplerate_refuted. Qed.
+Print Assumptions C19_aac_samplerate_refuted.
+
+(* SetAC3Descriptor / SetEC3Descriptor: the dac3/dec3 supplied, channel count and sample rate of the tables *)
+Theorem C19_descriptor_ac3 :
+  forall t fscod bsid bsmod acmod lfeon brc t',
+    set_ac3 t (mkDac3 fscod bsid bsmod acmod lfeon brc) = (OOk, t') ->
+    sd_entries t' = sd_entries t ++
+      [mkSE (BS "ac-3") 1 ((spec_acmod_nchan acmod + (if lfeon =? 1 then 1 else 0)) mod 65536) 16
+            (spec_ac3_rate fscod mod 65536) (CfgDac3 (mkDac3 fscod bsid bsmod acmod lfeon brc))]
+    /\ core t' = core t.
+Proof. exact set_ac3_ok. Qed.
+Print Assumptions C19_descriptor_ac3.
+
+Theorem C19_descriptor_ec3 :
+  forall t dr fscod bsid asvc bsmod acmod lfeon nds cl subs t',
+    cl < 512 ->
+    set_ec3 t (mkDec3 dr (mkEc3Sub fscod bsid asvc bsmod acmod lfeon nds cl :: subs)) = (OOk, t') ->
+    sd_entries t' = sd_entries t ++
+      [mkSE (BS "ec-3") 1
+            ((spec_acmod_nchan acmod + (if lfeon =? 1 then 1 else 0)
+              + (if 0 <? nds then spec_chanloc_count 0 spec_chanloc_weights cl else 0)) mod 65536) 16
+            (spec_ac3_rate fscod mod 65536)
+            (CfgDec3 (mkDec3 dr (mkEc3Sub fscod bsid asvc bsmod acmod lfeon nds cl :: subs)))]
+    /\ core t' = core t.
+Proof. exact set_ec3_ok. Qed.
+Print Assumptions C19_descriptor_ec3.
+
+Theorem C19_descriptor_wvtt :
+  forall t config,
+    set_wvtt t config =
+    (OOk, stsd_add t (mkSE (BS "wvtt") 1 0 0 0 (CfgVttC (match config with [] => BS "WEBVTT" | _ => config end)))).
+Proof. exact set_wvtt_ok. Qed.
+Print Assumptions C19_descriptor_wvtt.
+
+Theorem C19_descriptor_stpp :
+  forall t ns schema mime,
+    set_stpp t ns schema mime =
+    (OOk, stsd_add t (mkSE (BS "stpp") 1 0 0 0
+                           (CfgStpp (match ns with [] => BS "http://www.w3.org/ns/ttml" | _ => ns end) schema mime))).
+Proof. exact set_stpp_ok. Qed.
+Print Assumptions C19_descriptor_stpp.
+
+(* ------------------------------------------------------------------ the hypotheses are satisfiable *)
+Definition ex_avc_parse : avc_parser := fun sps => match sps with 103 :: _ => Some (1280, 720, (100, 0, 32)) | _ => None end.
+Definition ex_hevc_parse : hevc_parser := fun sps => match sps with 66 :: _ => Some (960, 540, [0; 0; 2; 536870912; 0; 123; 1; 2; 2]) | _ => None end.
+Definition ex_ops : list op :=
+  [ AddEmptyTrack 180000 (BS "video") (BS "und");
+    SetDesc 0 (DAvc (BS "avc1") [[103; 100; 0; 32]] [[104; 181]] true);
+    AddEmptyTrack 48000 (BS "audio") (BS "en-US");
+    SetDesc 1 (DAac 5 24000);
+    AddEmptyTrack 1000 (BS "stpp") (BS "zh-Hant");
+    SetDesc 2 (DStpp [] [] []);
+    AddEmptyTrack 90000 (BS "video") (BS "swe");
+    SetDesc 3 (DHevc (BS "hvc1") [[64; 1]] [[66; 1; 1]] [[68; 1]] [[78; 1]] true);
+    AddEmptyTrack 48000 (BS "audio") (BS "fil");
+    SetDesc 4 (DEc3 (mkDec3 1133 [mkEc3Sub 0 16 0 0 7 1 1 3])) ].
+
+Example C19_tracks_hyp : N.of_nat (length ex_ops) < 4294967295 /\ ops_valid 0 ex_ops = true.
+Proof. split; vm_compute; reflexivity. Qed.
+
+(* ... and the run is what the theorems say: five tracks, ids 1..5, next id 6, all calls succeed *)
+Example C19_tracks_run :
+  let '(ocs, s) := run ex_avc_parse ex_hevc_parse ex_ops in
+  ocs = repeat OOk 10 /\ map tk_id (traks s) = [1; 2; 3; 4; 5] /\ trexs s = [1; 2; 3; 4; 5] /\ next_id s = 6
+  /\ map hd_type (traks s) = [BS "vide"; BS "soun"; BS "subt"; BS "vide"; BS "soun"]
+  /\ map (fun t => length (sd_entries t)) (traks s) = [1; 1; 1; 1; 1]%nat.
+Proof. vm_compute. repeat split; reflexivity. Qed.
+
+Example C19_language_hyp : lower 115 = true /\ lower 119 = true /\ lower 101 = true /\ pack3 115 119 101 = 20197.
+Proof. vm_compute. repeat split; reflexivity. Qed.
+
+Example C19_aac_domain_hyp : In (29, 24000) aac_domain /\ In (2, 96000) aac_domain.
+Proof. split; vm_compute; tauto. Qed.
